@@ -82,6 +82,67 @@ def roundtrip_case(d, rng, shuffles):
     return fails
 
 
+SOFT_KINDS = ("Attribution", "Communication", "Delegation", "Influence", "Specialization", "Alternate", "Membership")
+
+
+def shape_sweep(tier):
+    """The systematic family: every relation kind x identified/anonymous x subset of optional formal arguments x kind of extra
+    attribute, alone and as a pair on one subject (same or different object), restricted to the property's quantifier.
+    Yields (description, document)."""
+    import datetime
+    import itertools
+    import prov.model as M
+    from prov.identifier import Namespace
+    EX = Namespace("ex", "http://example.org/")
+    T = datetime.datetime(2012, 3, 31, 9, 21)
+    extras = [None, [(M.PROV["role"], EX["r"])], [(EX["k"], "v")], [(M.PROV["label"], "l"), (EX["n"], 5)], [(M.PROV["type"], EX["MyType"])]]
+    kinds = [(t, cls) for t, cls in M.PROV_REC_CLS.items() if issubclass(cls, M.ProvRelation) and t != M.PROV_MENTION]
+
+    def shapes(t, cls):
+        formals = list(cls.FORMAL_ATTRIBUTES)
+        opt = formals[2:]
+        soft = t.localpart in SOFT_KINDS
+        for ident in (False, True):
+            if ident and t == M.PROV_ALTERNATE:
+                continue                      # known finding C07-F2
+            masks = list(itertools.product([False, True], repeat=len(opt)))
+            for mask in masks:
+                for ex in extras:
+                    attributed = any(mask) or ex is not None
+                    if not ident and soft and attributed:
+                        continue              # outside the quantifier
+                    if t in (M.PROV_SPECIALIZATION, M.PROV_ALTERNATE, M.PROV_MEMBERSHIP) and attributed and not ident:
+                        continue
+                    yield (ident, mask, ex)
+
+    def add(d, t, cls, n, shape, subj, obj):
+        ident, mask, ex = shape
+        formals = list(cls.FORMAL_ATTRIBUTES)
+        fa = {formals[0]: subj, formals[1]: obj}
+        for a, on in zip(formals[2:], mask):
+            if on:
+                fa[a] = T if a in M.PROV_ATTRIBUTE_LITERALS else EX["opt_" + a.localpart]
+        d.new_record(t, EX["rel%d" % n] if ident else None, fa, ex)
+
+    for t, cls in kinds:
+        sh = list(shapes(t, cls))
+        for shp in sh:
+            d = M.ProvDocument(); d.add_namespace(EX)
+            add(d, t, cls, 0, shp, EX["s"], EX["o"])
+            yield ("%s %r" % (t.localpart, shp), d)
+        pairs = list(itertools.product(sh, sh))
+        if tier == "quick":
+            pairs = pairs[::7]
+        for s1, s2 in pairs:
+            if s1[0] != s2[0]:
+                continue                       # a subject does not carry an identified and an anonymous relation of one kind
+            for same_obj in (True, False):
+                d = M.ProvDocument(); d.add_namespace(EX)
+                add(d, t, cls, 0, s1, EX["s"], EX["o"])
+                add(d, t, cls, 1, s2, EX["s"], EX["o"] if same_obj else EX["o2"])
+                yield ("%s pair %r %r same_obj=%s" % (t.localpart, s1, s2, same_obj), d)
+
+
 def predicate_correspondence():
     """model Rdf.enc_pred / dec_pred vs the implementation, for every relation kind x attribute"""
     import datetime
@@ -192,6 +253,18 @@ def run(tier, seed, log, model_runs=True, enlarged=False):
         for f in fails:
             violations.append({"kind": "failing-input", "failure": f, "provn": d.get_provn()[:2500]})
     log("round-tripped %d documents (x%d shuffled decodings) in %.1fs" % (n, shuffles, time.time() - t0))
+    t1 = time.time()
+    nsweep = 0
+    for desc, d in shape_sweep(tier):
+        nsweep += 1
+        try:
+            fails = roundtrip_case(d, rng, 1)
+        except Exception:
+            violations.append({"kind": "harness-error", "what": "harness error", "detail": traceback.format_exc()[-1500:]})
+            continue
+        for f in fails:
+            violations.append({"kind": "failing-input", "failure": dict(f, shape=desc), "provn": d.get_provn()[:2500]})
+    log("shape sweep: %d documents in %.1fs" % (nsweep, time.time() - t1))
     disagreements = []
     npred = 0
     if model_runs:
@@ -214,14 +287,17 @@ def run(tier, seed, log, model_runs=True, enlarged=False):
     for v in violations:
         uniq.setdefault(json.dumps(v.get("failure", {}).get("what", v.get("what"))), v)
     coverage = {
-        "evaluations": n * (1 + shuffles),
+        "evaluations": n * (1 + shuffles) + nsweep * 2,
+        "shape_sweep_documents": nsweep,
         "distinct_nontrivial": len(distinct),
         "rule": "documents generated inside the property's quantifier (names in namespaces declared on the document, non-empty "
                 "bundles, one kind per identifier, relations with their first two arguments, qualified and unqualified forms, no "
                 "subject with both an identified and an anonymous relation of one kind, values: strings incl. non-ASCII, ints, "
                 "booleans, datetimes, URIs, qualified names, language-tagged strings); each is written as TriG, read back and "
                 "compared set-based with unified(); the decoder is re-run on graphs rebuilt in shuffled quad order; distinct = "
-                "distinct PROV-N text",
+                "distinct PROV-N text; plus the systematic shape sweep: every relation kind x identified/anonymous x subset of optional "
+                "formal arguments x kind of extra attribute (none, role, custom, label+int, custom type), alone and in pairs on "
+                "one subject with the same or another object (quick: every 7th pair), restricted to the quantifier",
         "samples": [simpledocs.simple_doc(random.Random(seed)).get_provn()[:1200]],
         "traces_validated_against_impl": npred,
         "disagreements_checked": len(disagreements),
